@@ -14,7 +14,9 @@
 (d) the translator refuses (with a message naming the construct) what is outside the whitelist: functions of the
     unchanged tree (kernels.NOT_REGISTERED: enumerate / first-match loops / any() over two clauses / ambiguous `raises` /
     str.join, Decimal ...) and, in the extra cases, one edit per new construct that leaves it (lower-case hex format,
-    `!r`, a counter that can go negative, `==` on identity tokens, `return` inside a loop, an unmapped `raise`, ...).
+    `!r`, a counter that can go negative, `==` on identity tokens, `return` inside a loop, an unmapped `raise`, a `raise` of
+    another exception class, `assert` in place of `raise`, a message that reads through a value that may be None, a store to
+    a sliced name after the slice, an unlisted decorator, a changed parameter default, ...).
 Only the kernel's own group (generated + proof module) is built in each trial.
 All worktrees are removed.  Exit status 0 iff (a), (b) and (d) behave as stated and every (c) case has the
 outcome recorded in its `expect` field.
@@ -588,6 +590,55 @@ EXTRA = [
     dict(kernel="block_alignment", file=CH, kind="mutation", also=["bytes_per_second"],
          edits=[("return int(self.channelCount * self.bitsPerSample / 8)", "return int(self.channelCount * self.bitsPerSample / 8.0 + 0.5)")],
          expect="breaks", why="int() of a rational that is not `natural / positive literal` -> refused"),
+    # ---- second audit (M9): the exception CLASS of a raise, assert vs raise, messages that can raise themselves
+    dict(kernel="validate_non_matrix_pack", file=VA, kind="mutation",
+         edits=[("        raise AdmError(\"non-matrix audioPackFormat {apf.id} has outputPackFormat reference\"",
+                 "        raise ValueError(\"non-matrix audioPackFormat {apf.id} has outputPackFormat reference\"")],
+         expect="breaks", why="AdmError -> ValueError with the same text: no `raises` entry has that class -> refused"),
+    dict(kernel="validate_non_matrix_pack", file=VA, kind="mutation",
+         edits=[("        raise AdmError(\"non-matrix audioPackFormat {apf.id} has encodePackFormat references\".format(apf=apf))",
+                 "        assert False, \"non-matrix audioPackFormat {apf.id} has encodePackFormat references\".format(apf=apf)")],
+         expect="breaks", why="raise -> `assert False, <same text>` (AssertionError): an assert needs an entry of kind 'assert' -> refused"),
+    dict(kernel="validate_non_matrix_pack", file=VA, kind="mutation",
+         edits=[("        raise AdmError(\"non-matrix audioPackFormat {apf.id} has inputPackFormat reference\".format(apf=apf))",
+                 "        raise AdmError(\"non-matrix audioPackFormat {apf.outputPackFormat.id} has inputPackFormat reference\".format(apf=apf))")],
+         expect="breaks", why="the message reads `.id` through apf.outputPackFormat, which may be None (AttributeError instead of "
+                              "AdmError) -> refused"),
+    dict(kernel="matrix_type_of", file=MX, kind="mutation",
+         edits=[("        assert False, \"matrix types have either input or output pack format refs\"",
+                 "        raise ValueError(\"assert False: matrix types have either input or output pack format refs\")")],
+         expect="breaks", why="assert -> raise ValueError with the entry's text in the message: the entry is of kind 'assert' -> refused"),
+    dict(kernel="parse_time_frac", file=TFM, kind="mutation", also=PTF,
+         edits=[("            raise ValueError(\n                f\"in time {time_string!r}: numerator must be less than denominator\"",
+                 "            raise KeyError(\n                f\"in time {time_string!r}: numerator must be less than denominator\"")],
+         expect="breaks", why="ret_mode option: ValueError -> KeyError (still `none` in the old translation) -> refused"),
+    dict(kernel="clamp_end", file=TF, kind="mutation",
+         edits=[("        fmt_args = dict(bf_id=blockFormat.id, obj_id=audioObject.id, shift=shift)",
+                 "        fmt_args = dict(bf_id=blockFormat.id, obj_id=audioObject.parent.id, shift=shift)")],
+         expect="breaks", why="a message dict that reads through an unmapped attribute (may be None) -> refused"),
+    # ---- (M10) the two sizes of __len__ are separate parameters
+    dict(kernel="len", file=RD, kind="mutation",
+         edits=[("        if (self._ds64):\n            return self._ds64.dataSize //", "        if (not self._ds64):\n            return self._ds64.dataSize //")],
+         expect="breaks", why="inverted `if self._ds64` test: the branches read different sizes now"),
+    # ---- (M11) what a statement slice / the body does not show
+    dict(kernel="init_delay_samples", file=TP, kind="mutation",
+         edits=[("            self.delay = Delay(1, delay_samples)", "            for _i in range(1):\n                delay_samples += 1\n            self.delay = Delay(1, delay_samples)")],
+         expect="breaks", why="a loop after the slice that bumps the selected name -> refused"),
+    dict(kernel="pcm_encode_scaled", file=UT, kind="mutation",
+         edits=[("    scaledSamples = samples * (2**(bitdepth - 1) - 1)\n", "    scaledSamples = samples * (2**(bitdepth - 1) - 1)\n    if bitdepth > 0:\n        with np.errstate(all='ignore'):\n            scaledSamples = scaledSamples / 2\n")],
+         expect="breaks", why="a later store to the selected name inside if/with -> refused"),
+    dict(kernel="validate_non_matrix_pack", file=VA, kind="mutation",
+         edits=[("def _validate_non_matrix_pack(apf):", "@_skip_validation\ndef _validate_non_matrix_pack(apf):")],
+         expect="breaks", why="a decorator that the spec does not list (it could replace the function) -> refused"),
+    dict(kernel="block_alignment", file=CH, kind="mutation", also=["bytes_per_second"],
+         edits=[("    @property\n    def blockAlignment(self):", "    @property\n    @functools.lru_cache()\n    def blockAlignment(self):")],
+         expect="breaks", why="a second decorator next to the pinned `property` -> refused"),
+    dict(kernel="seek", file=RD, kind="mutation",
+         edits=[("    def seek(self, offset, whence=0):", "    def seek(self, offset, whence=1):")],
+         expect="breaks", why="parameter default changed (pinned in the spec: `whence=0`) -> refused"),
+    dict(kernel="inside_angle_range", file=GEOM, kind="mutation", also=IAR,
+         edits=[("def inside_angle_range(x, start, end, tol=0.0):", "def inside_angle_range(x, start, end, tol=1e-6):")],
+         expect="breaks", why="parameter default changed (pinned: `tol=0.0`) -> refused for the three kernels of this function"),
 ]
 
 
